@@ -66,6 +66,28 @@ theorem step_val {n : Nat} {st : St} {g : Bytes} {s : Scal} {X : Bytes}
         simp [lexValue, h34, h64]
       simp [stepArrayValue, h123, h125, h34, h64, h60, h62, h33, h61, hps, hlex, ret]
 
+/-- KeyValueSeparator sees `{`: the `=` was left out; the `{` is read again by ObjectValue. -/
+theorem step_kvs_open {n : Nat} {st : St} {g X : Bytes} (hst : st.state = .kvs) (hg : Blank g) :
+    step n st (g ++ 123 :: X) = .cont { st with state := .objectValue } (123 :: X) := by
+  simp only [step, skipWs_blank hg, skipWs_cons X blank_open (by decide), stepAt, hst]
+  simp [stepKvs, lexOperator]
+
+/-- Key sees `{ }`: a ghost object, skipped. -/
+theorem step_key_ghost {n : Nat} {st : St} {g gc Y : Bytes} (hst : st.state = .key)
+    (hg : Blank g) (hgc : Blank gc) :
+    step n st (g ++ 123 :: (gc ++ 125 :: Y)) = .cont st Y := by
+  simp only [step, skipWs_blank hg, skipWs_cons _ blank_open (by decide), stepAt, hst]
+  simp [stepKey, skipWs_blank hgc, skipWs_cons Y blank_close (by decide)]
+
+theorem braced_open {v : JVal} {a : Bytes} (hc : v.isBraced) (hv : JValidV v a) :
+    ∃ g X, jrenderV v = g ++ 123 :: X ∧ Blank g := by
+  cases v with
+  | scal g s => simp [JVal.isBraced] at hc
+  | empty g gc => simp only [JValidV] at hv; exact ⟨g, _, rfl, hv.1⟩
+  | obj g g0 k g1 o v rest gc => simp only [JValidV] at hv; exact ⟨g, _, rfl, hv.1⟩
+  | arrS g g0 s0 rest gc => simp only [JValidV] at hv; exact ⟨g, _, rfl, hv.1⟩
+  | arrC g first rest gc => simp only [JValidV] at hv; exact ⟨g, _, rfl, hv.1⟩
+
 theorem closeState_append {T R : List Tok} {P : Nat} (h : P < T.length) :
     closeState (T ++ R)[P]? = closeState T[P]? := by
   rw [List.getElem?_append_left h]
@@ -155,6 +177,10 @@ theorem len_jtapeF : ∀ (fs : JFields) (b : Nat) (a : Bytes), (jtapeF fs b a).l
   | .cons _ _ _ o v rest, b, a => by
     simp only [jtapeF, jcntF, List.length_append, List.length_cons, List.length_nil, len_jtapeV v, len_jtapeF rest]
     try omega
+  | .consImp _ _ v rest, b, a => by
+    simp only [jtapeF, jcntF, List.length_append, List.length_cons, List.length_nil, len_jtapeV v, len_jtapeF rest]
+    try omega
+  | .ghost _ _ rest, b, a => by simp only [jtapeF, jcntF, len_jtapeF rest]
 theorem len_jtapeVs : ∀ (vs : JVals) (b : Nat) (a : Bytes), (jtapeVs vs b a).length = jcntVs vs
   | .nil, _, _ => by simp [jtapeVs, jcntVs]
   | .cons v rest, b, a => by
@@ -456,6 +482,41 @@ theorem jrun_F (n : Nat) : ∀ (fs : JFields) (after : Bytes) (fuel : Nat) (st :
     simp only [jtapeF, List.length_append, List.length_cons, len_jtapeV, List.append_assoc,
       List.cons_append, List.nil_append]
     simp only [Nat.add_assoc, Nat.add_comm, Nat.add_left_comm]
+  | .consImp g0 k v rest, after, fuel, st, hv, hst, hc => by
+    simp only [JValidF] at hv
+    obtain ⟨h0, hk, hbr, hkb, hvv, hvr⟩ := hv
+    have hfuel : fuel + jstepsF (.consImp g0 k v rest) = (((fuel + jstepsF rest) + jstepsV v) + 1) + 1 := by
+      simp only [jstepsF]; omega
+    rw [hfuel]
+    simp only [jrenderF, List.append_assoc]
+    rw [run_cont (step_key_scal hst h0 hk hkb)]
+    -- no operator: KeyValueSeparator hands the `{` to ObjectValue
+    obtain ⟨gv, Xv, hrv, hgv⟩ := braced_open hbr hvv
+    have hdata : jrenderV v ++ (jrenderF rest ++ after) = gv ++ 123 :: (Xv ++ (jrenderF rest ++ after)) := by
+      rw [hrv]; simp
+    have hk2 := step_kvs_open (n := n)
+      (st := St.mk .kvs st.mixed st.parent (st.tape ++ [k.tok (jrenderV v ++ (jrenderF rest ++ after))]))
+      (g := gv) (X := Xv ++ (jrenderF rest ++ after)) rfl hgv
+    rw [← hdata] at hk2
+    rw [run_cont hk2, ← run_blank hgv, ← hdata]
+    rw [jrun_V n v (jrenderF rest ++ after) _ _ hvv (.inl rfl)
+      (hc.after_key hst k _ [] .objectValue rfl) (by simp)]
+    simp only [ret_ov, List.append_assoc, List.cons_append, List.nil_append]
+    rw [jrun_F n rest after _ _ hvr rfl (hc.after_key hst k _ _ .key rfl)]
+    congr 1
+    refine St.ext' hst.symm rfl rfl ?_
+    simp only [jtapeF, List.length_append, List.length_cons, List.length_nil, Nat.zero_add, len_jtapeV,
+      List.append_assoc, List.cons_append, List.nil_append]
+    simp only [Nat.add_comm]
+  | .ghost g gc rest, after, fuel, st, hv, hst, hc => by
+    simp only [JValidF] at hv
+    have hfuel : fuel + jstepsF (.ghost g gc rest) = (fuel + jstepsF rest) + 1 := by
+      simp only [jstepsF]; omega
+    rw [hfuel]
+    simp only [jrenderF, List.append_assoc, List.cons_append]
+    rw [run_cont (step_key_ghost hst hv.1 hv.2.1)]
+    rw [jrun_F n rest after _ _ hv.2.2 hst hc]
+    simp only [jtapeF]
 theorem jrun_Vs (n : Nat) : ∀ (vs : JVals) (after : Bytes) (fuel : Nat) (st : St),
     JValidVs vs after → st.state = .arrayValue → Ctx3 st → st.tape ≠ [] →
     run n (fuel + jstepsVs vs) st (jrenderVs vs ++ after) =
@@ -513,6 +574,18 @@ theorem jstepsF_le : ∀ (fs : JFields) (a : Bytes), JValidF fs a → jstepsF fs
     have h3 := jstepsV_le v _ hv.2.2.2.2.1
     have h4 := jstepsF_le rest _ hv.2.2.2.2.2
     simp only [jstepsF, jrenderF, List.length_append]; omega
+  | .consImp g0 k v rest, a, hv => by
+    simp only [JValidF] at hv
+    have h1 := hv.2.1.text_pos
+    have h3 := jstepsV_le v _ hv.2.2.2.2.1
+    have h4 := jstepsF_le rest _ hv.2.2.2.2.2
+    have h5 : 1 ≤ (jrenderV v).length := by
+      cases v <;> simp [JVal.isBraced] at hv <;> simp [jrenderV] <;> omega
+    simp only [jstepsF, jrenderF, List.length_append]; omega
+  | .ghost g gc rest, a, hv => by
+    simp only [JValidF] at hv
+    have h4 := jstepsF_le rest _ hv.2.2
+    simp only [jstepsF, jrenderF, List.length_append, List.length_cons]; omega
 theorem jstepsVs_le : ∀ (vs : JVals) (a : Bytes), JValidVs vs a → jstepsVs vs ≤ 2 * (jrenderVs vs).length
   | .nil, _, _ => by simp [jstepsVs]
   | .cons v rest, a, hv => by
@@ -553,6 +626,10 @@ theorem kcnt_V : ∀ v : JVal, kcntV (kcontentV v) = jcntV v
 theorem kcnt_F : ∀ fs : JFields, kcntF (kcontentF fs) = jcntF fs
   | .nil => rfl
   | .cons _ _ _ o v rest => by simp only [kcontentF, kcntF, jcntF, kcnt_V v, kcnt_F rest]
+  | .consImp _ _ v rest => by
+    simp only [kcontentF, kcntF, jcntF, kcnt_V v, kcnt_F rest, Op.toks, List.length_nil]
+    try omega
+  | .ghost _ _ rest => by simp only [kcontentF, jcntF, kcnt_F rest]
 theorem kcnt_Vs : ∀ vs : JVals, kcntVs (kcontentVs vs) = jcntVs vs
   | .nil => rfl
   | .cons v rest => by simp only [kcontentVs, kcntVs, jcntVs, kcnt_V v, kcnt_Vs rest]
@@ -589,6 +666,11 @@ theorem jtapeF_erase : ∀ (fs : JFields) (b : Nat) (a : Bytes),
     simp only [jtapeF, kcontentF, ktapeF, List.map_append, List.map_cons, List.map_nil,
       Scal.tok_erase k, Op.toks_erase, jtapeV_erase v, jtapeF_erase rest, kcnt_V,
       List.append_assoc, List.cons_append, List.nil_append]
+  | .consImp _ k v rest, b, a => by
+    simp only [jtapeF, kcontentF, ktapeF, List.map_append, List.map_cons, List.map_nil,
+      Scal.tok_erase k, jtapeV_erase v, jtapeF_erase rest, kcnt_V, Op.toks, List.length_nil,
+      List.append_assoc, List.cons_append, List.nil_append, List.append_nil, Nat.add_zero]
+  | .ghost _ _ rest, b, a => by simp only [jtapeF, kcontentF, jtapeF_erase rest]
 theorem jtapeVs_erase : ∀ (vs : JVals) (b : Nat) (a : Bytes),
     (jtapeVs vs b a).map Tok.erase = ktapeVs (kcontentVs vs) b
   | .nil, _, _ => rfl
